@@ -20,7 +20,7 @@ class Crashed(Exception):
 
 
 class FS:
-    def __init__(self, files=None, crash_at=None, prefix_len=None, yielder=None, faults=None):
+    def __init__(self, files=None, crash_at=None, prefix_len=None, yielder=None, faults=None, latency=None):
         self.files = dict(files or {})  # path -> content (str | bytes | token)
         self.ops = []
         self.crash_at = crash_at
@@ -28,6 +28,16 @@ class FS:
         self.prefix_len = prefix_len  # callable(n) -> surviving prefix of an unflushed write
         self.yielder = yielder
         self.faults = faults or {}  # opname -> exception to raise
+        self.latency = latency  # callable(handle index) -> number of suspensions per operation on that handle
+        self.handles = 0
+
+    async def pause(self, handle):
+        """Each file operation suspends `latency(handle)` times (thread-pool I/O of varying speed)."""
+        if self.yielder is None:
+            return
+        n = 1 if self.latency is None else self.latency(handle)
+        for _ in range(n):
+            await self.yielder()
 
     def tick(self, op):
         if self.crashed:
@@ -59,13 +69,13 @@ class _File:
         self.bufpos = 0
         self.pos = 0
         self.closed = False
+        self.handle = 0
 
     def writable(self):
         return "w" in self.mode or "+" in self.mode or "a" in self.mode
 
     async def _y(self):
-        if self.fs.yielder is not None:
-            await self.fs.yielder()
+        await self.fs.pause(self.handle)
 
     async def read(self):
         await self._y()
@@ -154,8 +164,9 @@ class _Ctx:
 
     async def _open(self):
         fs = self.fs
-        if fs.yielder is not None:
-            await fs.yielder()
+        handle = fs.handles
+        fs.handles += 1
+        await fs.pause(handle)
         fs.tick("open-%s:%s" % (self.mode, self.path))
         if "w" in self.mode:
             fs.files[self.path] = ""
@@ -168,6 +179,7 @@ class _Ctx:
         elif self.path not in fs.files:
             raise FileNotFoundError(2, "No such file or directory", self.path)
         self.f = _File(fs, self.path, self.mode)
+        self.f.handle = handle
         if "a" in self.mode:
             self.f.pos = len(fs.files[self.path])
         return self.f
